@@ -381,7 +381,31 @@ def main(rep, ws, tier):
                         want = P.padd(P.pmul(A, P.psub(P.pconst(1), Tt)), P.pmul(Bb, Tt))
                         if not ctx.requal(ctx.rat(res), (want, P.pconst(1))):
                             bad = 'arm %s computes %s, expected a*(1-t) + b*t' % (PC.show_asg(asg), P.show_rat(ctx.rat(res), ctx)); break
-                    rep.ob(oid, 'R17.poly', VIOLATED if bad else HOLDS, bad or '%d arm(s) equal a*(1-t) + b*t' % n, where)
+                    if not bad and k == 'lerp':
+                        # ... in the convex *form* of its definition: each end point enters through one product with a weight that
+                        # does not mention the end points; a + (b-a)*t is the same polynomial but cancels for |a| >> |b| at t = 1,
+                        # overflows for finite end points of opposite sign and wraps for unsigned T
+                        def mentions(z, leaves_):
+                            seen_ = set(); st_ = [z]
+                            while st_:
+                                y_ = st_.pop()
+                                if y_.id in seen_: continue
+                                seen_.add(y_.id)
+                                if any(y_ is l for l in leaves_): return True
+                                st_.extend(y_.args)
+                            return False
+                        top = o
+                        while top.op in ('fptrunc', 'fpext', 'sitofp', 'fptosi', 'uitofp', 'fptoui') and top.args: top = top.args[0]
+                        terms = list(top.args) if top.op == 'fadd' else []
+                        used = []
+                        for tm in terms:
+                            if tm.op == 'fmul' and len(tm.args) == 2:
+                                for e_, w_ in ((tm.args[0], tm.args[1]), (tm.args[1], tm.args[0])):
+                                    while e_.op in ('fpext', 'sitofp', 'uitofp') and e_.args: e_ = e_.args[0]
+                                    if (e_ is x or e_ is y) and not mentions(w_, (x, y)): used.append(e_)
+                        if len(terms) != 2 or sorted(u.id for u in used) != sorted((x.id, y.id)):
+                            bad = 'the result is polynomially a*(1-t) + b*t but is not computed as the sum of the two end point * weight products of the definition (%s): lerp(a, b, 1) is then b only up to the cancellation in a + (b - a)' % T.show(top, 4)[:140]
+                    rep.ob(oid, 'R17.poly', VIOLATED if bad else HOLDS, bad or '%d arm(s) equal a*(1-t) + b*t%s' % (n, ' in the convex form of the definition' if k == 'lerp' else ''), where)
                 elif k == 'lerpfactor':
                     o = S.out('a0', 0, sz, lt); mm, x, y = X('a1'), X('a2'), X('a3')
                     lv = T.leaves(o, 64)
